@@ -235,25 +235,59 @@ impl Location {
     }
 }
 
+/// What is known about the input a parser mark refers to.
+#[derive(Clone, Copy, Debug)]
+pub(crate) enum MarkInput<'a> {
+    /// Nothing: the mark is reported as the parser gives it.
+    Unknown,
+    /// The whole in-memory input.
+    Text(&'a str),
+    /// A reader whose stream has ended inside a line (no final line break): the number of
+    /// characters it delivered and the number of characters in that unterminated last line.
+    ReaderEndedInLine {
+        total_chars: usize,
+        last_line_chars: usize,
+    },
+}
+
+impl<'a> From<Option<&'a str>> for MarkInput<'a> {
+    fn from(input: Option<&'a str>) -> Self {
+        input.map_or(MarkInput::Unknown, MarkInput::Text)
+    }
+}
+
 /// Line and 1-based column of a parser mark.
 ///
 /// When the scanner closes the stream it moves its mark to the start of a fresh line, even if
 /// the input does not end with a line break. Such a mark (column 0 although the character in
 /// front of it is not a line break) names a line that does not exist, while its character and
-/// byte offsets are still those of the end of the input. With the input text at hand the mark is
-/// put back just after the last character of the last line. Without the text (reader input) the
+/// byte offsets are still those of the end of the input. With the input text at hand, or the
+/// reader's account of how its stream ended, the mark is put back just after the last character
+/// of the last line, so that in-memory and reader input report the same position. Otherwise the
 /// mark is reported as the parser gives it.
-pub(crate) fn mark_line_and_column(mark: &Marker, input: Option<&str>) -> (usize, usize) {
-    if mark.col() == 0
-        && mark.line() > 1
-        && let Some(text) = input
-        && let Some(byte) = mark.byte_offset()
-        && byte > 0
-        && let Some(before) = text.get(..byte)
-        && !before.ends_with(['\n', '\r'])
-    {
-        let line_start = before.rfind(['\n', '\r']).map_or(0, |i| i + 1);
-        return (mark.line() - 1, before[line_start..].chars().count() + 1);
+pub(crate) fn mark_line_and_column(mark: &Marker, input: MarkInput<'_>) -> (usize, usize) {
+    if mark.col() == 0 && mark.line() > 1 {
+        match input {
+            MarkInput::Text(text) => {
+                if let Some(byte) = mark.byte_offset()
+                    && byte > 0
+                    && let Some(before) = text.get(..byte)
+                    && !before.ends_with(['\n', '\r'])
+                {
+                    let line_start = before.rfind(['\n', '\r']).map_or(0, |i| i + 1);
+                    return (mark.line() - 1, before[line_start..].chars().count() + 1);
+                }
+            }
+            MarkInput::ReaderEndedInLine {
+                total_chars,
+                last_line_chars,
+            } => {
+                if total_chars > 0 && mark.index() >= total_chars {
+                    return (mark.line() - 1, last_line_chars + 1);
+                }
+            }
+            MarkInput::Unknown => {}
+        }
     }
     (mark.line(), mark.col() + 1)
 }
@@ -267,12 +301,11 @@ pub(crate) fn mark_line_and_column(mark: &Marker, input: Option<&str>) -> (usize
 /// matching what the parser reports.
 #[cfg_attr(not(feature = "verif_hooks"), allow(dead_code))]
 pub(crate) fn location_from_span(span: &ParserSpan) -> Location {
-    location_from_span_in(span, None)
+    location_from_span_in(span, MarkInput::Unknown)
 }
 
-/// [`location_from_span`] for a span of the in-memory input `input` (see
-/// [`mark_line_and_column`]).
-pub(crate) fn location_from_span_in(span: &ParserSpan, input: Option<&str>) -> Location {
+/// [`location_from_span`] for a span of the given input (see [`mark_line_and_column`]).
+pub(crate) fn location_from_span_in(span: &ParserSpan, input: MarkInput<'_>) -> Location {
     let start = &span.start;
     let end = &span.end;
 
